@@ -115,7 +115,13 @@ StageDrift(S) ==
          \o Check(E.stage[i].pass = evs[i].pass, l, "L2", "filter verdict differs from Score.tla")
          \o Check(evs[i].safe, l, "L2", "an unsigned subtraction of the matcher would underflow (ArithSafe)")])
         \o (IF Len(s.records) <= CapFactor * s.limit /\ UniqueIds(s)
-             THEN LET passing == SelectSeq([i \in DOMAIN s.records |-> [key |-> evs[i].key, id |-> s.records[i].id, title |-> evs[i].title, pass |-> evs[i].pass]],
+             THEN LET \* an empty query only considers the positions of the top-rated list (checked separately)
+                      \* and a query with words only the records the index offers (those sharing a gram)
+                      cand(i) == IF QHasWords(E) THEN GramSet(s.records[i].tok) \cap GramSet(E.qtok) # {}
+                                 ELSE ~Has(E, "proj") \/ E.proj.cache = <<>>
+                                      \/ \E k \in DOMAIN E.proj.cache[1] : E.proj.cache[1][k] = s.records[i].ix
+                      passing == SelectSeq([i \in DOMAIN s.records |-> [key |-> evs[i].key, id |-> s.records[i].id, title |-> evs[i].title,
+                                                                        pass |-> evs[i].pass /\ cand(i)]],
                                            LAMBDA x : x.pass)
                       byId(id) == CHOOSE x \in SeqRange(passing) : x.id = id
                       known == \A k \in DOMAIN E.hits : \E x \in SeqRange(passing) : x.id = E.hits[k].id
